@@ -391,7 +391,7 @@ class Walker:
             return P.sym(a)
         if name == 'float' and len(node.args) == 1:
             return self.ev(node.args[0])
-        if name in ('sin', 'cos', 'tan', 'sqrt', 'exp', 'fabs', 'abs', 'atan', 'deg2rad', 'pow'):
+        if name in ('sin', 'cos', 'tan', 'sqrt', 'exp', 'fabs', 'abs', 'atan', 'deg2rad', 'pow', 'sum'):
             return P.sym('%s(%s)' % (name, ','.join(self.nf(a) for a in node.args)))
         return None
 
